@@ -23,6 +23,10 @@ MANIFEST = dict(
          "generator coverage bounds what the tie sees.",
     technique="Lean 4 proof (structural induction over the layer stack, refinement of a byte-level spec) + model/impl correspondence",
     design="DESIGN.md §6 C14")
+MANIFEST["note"] += (" Constants and limits of the C++ source that the model restates (translator/gen_limits.py -> Gen/Limits.lean: "
+                     "compiled probe + preprocessed function bodies at named anchors) are tied to the model's numerals by the "
+                     "theorems of lean/TinsModel/Props/Limits/C14.lean (audit: Audit/LimitsC14.lean); tools/LIMITS-INVENTORY.md lists "
+                     "what is tied and what is not.")
 
 
 # ----------------------------------------------------------------------------- request generators
